@@ -177,6 +177,42 @@ def check_case(ctx, cs):
         raise core.MachineryError("unknown op " + op)
 
 
+def check_aliases_and_edit_back(ctx):
+    """(a) the compatibility names in ``utilities`` are the same functions, keyword options included;  (b) a knot vector taken from the
+    getter, spoilt in place and assigned back is rejected like any other invalid vector"""
+    from geomdl import utilities, knotvector, BSpline
+    ctx.full = {"aliases": True}
+    for p_, n_, cl in ((2, 5, True), (2, 5, False), (3, 7, False), (1, 4, False)):
+        small = {"p": p_, "nc": n_, "clamped": cl}
+        ctx.count(("alias", p_, n_, cl), sample=small)
+        try:
+            a_ = utilities.generate_knot_vector(p_, n_, clamped=cl)
+            b_ = knotvector.generate(p_, n_, clamped=cl)
+            if list(a_) != list(b_):
+                ctx.violate("utilities.generate_knot_vector", ["alias", "clamped" if cl else "unclamped"], small, {"alias": list(a_), "knotvector.generate": list(b_)})
+            if utilities.check_knot_vector(p_, b_, n_) is not True or list(utilities.normalize_knot_vector([1.0, 1.0, 2.0, 3.0, 3.0])) != list(knotvector.normalize([1.0, 1.0, 2.0, 3.0, 3.0])):
+                ctx.violate("utilities.check_knot_vector", ["alias"], small, {})
+        except Exception as e:
+            ctx.violate("utilities.generate_knot_vector", ["alias", "raises"], small, {"exception": repr(e)[:200]})
+    for norm in (True, False):
+        small = {"normalize_kv": norm}
+        ctx.count(("kv_edit_back", norm), sample=small)
+        try:
+            c = BSpline.Curve(normalize_kv=norm)
+            c.degree = 2
+            c.ctrlpts = [[float(i), float(i * i % 3)] for i in range(5)]
+            c.knotvector = [0.0, 0.0, 0.0, 0.25, 0.5, 1.0, 1.0, 1.0]
+            kv = c.knotvector
+            kv[3], kv[4] = 0.75, 0.5                    # decreasing now
+            try:
+                c.knotvector = kv
+                ctx.violate("Curve.knotvector.setter", ["edit_back", "descent", "normalize_kv=%s" % norm], small, {"expected": "ValueError", "accepted": list(kv)})
+            except ValueError:
+                pass
+        except Exception as e:
+            ctx.violate("Curve.knotvector.setter", ["edit_back", "raises"], small, {"exception": repr(e)[:200]})
+
+
 def check_setters(ctx):
     """the rule of knotvector.check is enforced by every per-direction setter of surfaces and volumes (sizes and degrees all
     different, so a check against another direction's count or degree shows)"""
@@ -237,6 +273,7 @@ def run(ctx):
         if not ops.get(need):
             raise core.MachineryError("vacuous model: action %s never taken" % need)
     check_setters(ctx)
+    check_aliases_and_edit_back(ctx)
     ctx.traces = len(res.cases)
     ctx.extra["transitions_by_action"] = ops
     ctx.rule = ("TLC enumerates (degree, knot vector, parameter) on the lattice of MC_C03_%s.cfg; one case per transition; "
@@ -250,4 +287,6 @@ def run(ctx):
 def replay(ctx, v):
     if "setters" in v["full"]:
         return check_setters(ctx)
+    if "aliases" in v["full"]:
+        return check_aliases_and_edit_back(ctx)
     check_case(ctx, v["full"])
